@@ -5,7 +5,7 @@ from collections.abc import Generator
 from functools import singledispatch
 from typing import Any, IO
 from typing_extensions import override
-from itertools import chain
+from itertools import chain, groupby
 from pyjelly.integrations.rdflib.parse import Quad, Triple
 from pyjelly.options import StreamParameters
 
@@ -202,21 +202,24 @@ def graphs_stream_frames(
         namespace_declarations(data, stream)  # type: ignore[arg-type]
 
     if isinstance(data, Dataset):
-        graphs = data.graphs()
+        for graph in data.graphs():
+            yield from stream.graph(graph_id=graph.identifier, graph=graph)
     else:
-        ds = Dataset()
-        for quad in data:
-            ctx = ds.get_context(quad.g)
-            ctx.add((quad.s, quad.p, quad.o))
-        graphs = ds.graphs()
-
-    for graph in graphs:
-        yield from stream.graph(graph_id=graph.identifier, graph=graph)
+        # A sequence of quads is written in its own order, one graph per run of
+        # consecutive quads with the same graph name (as the generic integration does);
+        # the quads are read while they are written, not collected first.
+        for graph_name, quads in groupby(data, key=_graph_name):
+            triples = ((quad.s, quad.p, quad.o) for quad in quads)
+            yield from stream.graph(graph_id=graph_name, graph=triples)
 
     if frame := stream.flow.frame_from_dataset():
         yield frame
     if frame := stream.flow.to_stream_frame():
         yield frame
+
+
+def _graph_name(quad: Quad) -> object:
+    return quad.g
 
 
 def guess_options(sink: Graph | Dataset) -> SerializerOptions:
